@@ -532,6 +532,9 @@ impl<'a, R: AsyncRead + Unpin, W: AsyncWrite + Unpin> Request<'a, R, W> {
 
             // Both stream and protocol data buffers are empty here
             this.parser.compress();
+            // The client may wait for output generated by the `Parser::parse` call above
+            // before it sends more input, so it must be sent out before waiting for a read
+            ready!(Pin::new(&mut *this).poll_output(cx))?;
             let buf = this.parser.input_buffer();
             read = ready!(Pin::new(&mut this.input).poll_read(cx, buf))?;
             if read == 0 {
